@@ -38,6 +38,8 @@ Definition family_ok (neg : bool) (o : positive) (j : Z) : bool :=
   flag (ang_of (f_o2j neg o j)) && Nat.eqb (rot_branch (ang_of (f_o2j neg o j))) (kmod4 neg o j).
 
 Definition famP (o : positive) (j : Z) : bool := family_ok false o j && family_ok true o j.
+(* conversion hint: unfold these wrappers before andb, so that no float operation is ever evaluated on a variable *)
+Strategy expand [family_ok famP].
 
 Lemma forallb_zrange (P : Z -> bool) len lo : forallb P (zrange_from lo len) = true ->
   forall j, lo <= j < lo + Z.of_nat len -> P j = true.
@@ -74,5 +76,5 @@ Qed.
 (* the family really is the multiples k*pi/2 of the sweep: for small k both constructions give the same float *)
 Example family_matches_sweep :
   forallb (fun p => same_float (ang_of (f_o2j false (fst p) (snd p))) (ang_a (Z.pos (fst p) * 2 ^ (snd p))))
-          [(1, 0); (3, 2); (5, 7); (9, 8); (7, 9)]%positive%Z = true.
+          [(1%positive, 0); (3%positive, 2); (5%positive, 7); (9%positive, 8); (7%positive, 9)] = true.
 Proof. vm_compute. reflexivity. Qed.
